@@ -98,7 +98,12 @@ where
             if result.timed_out()
                 || (duration.as_secs() == 0 && duration.subsec_nanos() < 1_000_000)
             {
-                return None;
+                // the wake-up that ended this wait may have been the notification for an element
+                // pushed in the meantime: look once more instead of leaving it behind for nobody
+                return match queue.pop_front() {
+                    Some(Control::Elem(value)) => Some(value),
+                    Some(Control::Unblock) | None => None,
+                };
             }
         }
     }
